@@ -9,14 +9,14 @@ QUICK = {
     "C02": ["fub_poll_c2", "fub_stale_many", "fub_push_c2", "fob_push_c2", "fu_poll_2", "fu_push_12", "fob_poll_c2", "fu_cur_12_c1", "fu_cur_12_c0", "sm_step_c3"],
     "C04": ["fob_poll_c2", "fob_poll_c2_p0", "fob_poll_c1_p2", "fob_push_c2", "fo_observe_c2", "ad_bo_n2_p0", "ja_poll_n2", "ctor_fub_from_iter"],
     "C05": ["fub_poll_c2", "mb_poll_c2", "mb_end_many_6", "ja_poll_n2", "fub_poll_c2_handles"],
-    "C06": ["fub_drop_c2", "ja_poll_n2", "tja_poll_n2", "mb_poll_c2", "fob_drop_c2"],
+    "C06": ["fub_drop_c2", "ja_poll_n2", "tja_poll_n2", "mb_poll_c2", "fob_drop_c2", "fob_poll_drop_c1", "fob_poll_drop_c1_hi"],
     "C07": ["ja_poll_n2", "tja_poll_n2"],
     "C08": ["fub_poll_c2", "fu_poll_2", "fu_push_12", "fu_push_2", "fu_cur_12_c0", "mu_push_12", "mu_poll_12_c1"],
     "C09": ["ad_bu_n2", "ad_bu_n3", "ad_tbu_n2", "ad_fe_n1", "ad_bo_n2_p0"],
-    "C10": ["ad_bu_n2", "ad_tbu_n2", "ad_fe_n1", "ad_fe_n0", "ad_bo_n2_p0", "ad_bo_n2"],
+    "C10": ["ad_bu_n2", "ad_tbu_n2", "ad_fe_n1", "ad_fe_n0", "ad_bo_n2_p0", "ad_bo_n2", "ad_tbo_n2_q0"],
     "C11": ["mb_poll_c2", "mb_push_c2", "mb_end_many_6", "mu_poll_12_c0", "mu_poll_12_c1", "mu_push_12", "ctor_mb_from_iter"],
     "C12": ["fub_poll_c2", "fub_wake_c2", "fub_push_c2", "mb_poll_c2", "fu_poll_2", "fub_poll_budget_61"],
-    "C13": ["fub_poll_c2", "fub_poll_budget", "fub_poll_budget_61", "fub_poll_budget_many", "mu_poll_12_c0", "mu_poll_12_c1", "fu_poll_2", "fu_cur_12_c1"],
+    "C13": ["fub_poll_c2", "fub_budget_fifo", "fub_poll_budget", "fub_poll_budget_61", "fub_poll_budget_many", "mu_poll_12_c0", "mu_poll_12_c1", "fu_poll_2", "fu_cur_12_c1"],
     "C14": ["ad_bu_n2", "ad_fe_n1", "mu_poll_12_c1", "fub_poll_c2_quiet", "fub_wake_c2", "fub_push_c2", "fub_drop_c2", "fu_cur_12_c0", "fub_poll_budget_61"],
     "C15": ["fub_poll_c2", "fub_push_c2", "fub_push_c0", "fob_push_c2", "fob_new", "fo_new", "fu_push_12", "fu_cur_12_c0", "sm_step_c3", "ctor_fub_from_iter", "ctor_fu_0", "ctor_fu_2"],
     "C16": ["ad_bo_n2", "ad_tbo_n2"],
@@ -69,6 +69,9 @@ h("fub_poll_budget_3", ["C13", "C14", "C12"], T, unwind=6, unwindset={POLL: 63},
   covers=["cover:within_budget"], what=W_BUD, bounds="k = 3")
 h("fub_poll_budget_many", ["C13", "C01"], QT, unwind=66, timeout=1200, covers=["cover:budget_exhausted"],
   what="FuturesUnorderedBounded<Idle> capacity 62 with all 62 children held and queued (none wakes itself): the call stops after 61 child polls and must wake its task, because the child left in the queue has already been notified",
+  bounds="capacity 62, fully concrete state; every loop unwound 66")
+h("fub_budget_fifo", ["C13", "C01"], QT, unwind=66, timeout=1200, covers=["cover:victim_waits_at_front"],
+  what="FuturesUnorderedBounded<Busy> capacity 62: 61 children that wake themselves on every poll are queued AHEAD of a woken victim. ONE poll: bounded work, task woken, and the victim - not reached by this call - is now at the FRONT of the ready queue (FIFO kept across the budget stop), so it cannot be overtaken for ever",
   bounds="capacity 62, fully concrete state; every loop unwound 66")
 h("fub_stale_many", ["C02", "C05", "C14", "C15"], QT, unwind=66, timeout=1200, covers=["cover:stale_many"],
   what="FuturesUnorderedBounded<Idle> capacity 62, EMPTY, with 62 stale ready-queue entries (wakers of finished children invoked after completion; more than the per-poll budget): the poll answers Ready(None) at once, polls nothing and wakes nobody",
@@ -154,6 +157,13 @@ h("fob_push_c2", ["C04", "C15", "C02", "C12"], QT, covers=["cover:push_front", "
 h("fob_drop_c2", ["C06"], QT, covers=["cover:drop_with_running"],
   what="FuturesOrderedBounded<TFut>: drop from an arbitrary INV_ordered pre-state with a parked (drop-counted) output: every running future and every parked output is dropped exactly once",
   bounds="capacity 2, 1 parked output")
+h("fob_poll_drop_c1", ["C06"], QT, unwindset={"FuturesOrderedBounded.*poll_next#2": 3, POLL: 3, "binary_heap": 3}, timeout=1500, mem=16, covers=["cover:pending_rebased", "cover:yield"],
+  what="as fob_poll_drop_c2 with capacity 1 (cheap enough to stay decidable for code that handles the parked outputs with raw-pointer loops)", bounds="capacity 1, 1 parked (drop-counted) output; no self-wake")
+h("fob_poll_drop_c1_hi", ["C06"], QT, unwindset={"FuturesOrderedBounded.*poll_next#2": 3, POLL: 3, "binary_heap": 3}, timeout=1500, mem=24, covers=["cover:pending_rebased"],
+  what="as fob_poll_drop_c1 with next_outgoing_index = 2^64-1 (concrete: the re-basing block is taken on every path)", bounds="capacity 1, 1 parked (drop-counted) output; concrete counter")
+h("fob_poll_drop_c2", ["C06"], T, unwindset=FOB_US, timeout=2400, mem=30, covers=["cover:pending_rebased", "cover:yield"],
+  what="FuturesOrderedBounded<TFut>: ONE poll_next from an arbitrary INV_ordered pre-state (symbolic 64-bit counter: re-basing with mem::take / into_vec included), then the item and the collection are dropped: every future, every output parked before or during the call and the yielded output dropped exactly once",
+  bounds="capacity 2, 1 parked (drop-counted) output; no self-wake")
 h("fob_new", ["C15"], QT, covers=["cover:cap0"], panic_is_violation=True,
   what="FuturesOrderedBounded::<Fut>::new(n) for every n in 0..=2 must not panic", bounds="n <= 2")
 h("fo_new", ["C15"], QT, covers=["cover:cap0"], panic_is_violation=True,
@@ -215,7 +225,10 @@ h("ad_bo_n2", ["C16", "C09", "C10", "C17", "C04", "C14"], QT, unwindset=BO_US, t
   what="buffered_ordered(2): " + W_AD + "; 1 parked output in the pre-state (head of line stalled)", bounds="n=2; pre-state len <= n")
 h("ad_bo_n2_p0", ["C16", "C09", "C10", "C17", "C04"], QT, unwindset=BO_US, timeout=1200, covers=["cover:item", "cover:pending", "cover:end"],
   what="buffered_ordered(2): " + W_AD + "; nothing parked in the pre-state", bounds="n=2")
-h("ad_tbo_n2", ["C16", "C09", "C10", "C17", "C14"], QT, unwindset=BO_US, timeout=1200, covers=["cover:item", "cover:pending"],
+h("ad_tbo_n2_q0", ["C10", "C16", "C09", "C17"], QT, unwindset=BO_US, timeout=2700, mem=30, covers=["cover:item", "cover:pending"],
+  what=W_AD + " try_buffered_ordered(2) with one output parked out of turn; the ready queue of the in-flight collection is concretely empty (no future polled): the adapter's dealings with upstream (items, errors, end) and with the parked output, cheap enough to stay decidable for code that polls the collection more than once per call",
+  bounds="n = 2, exactly 1 parked output, empty ready queue")
+h("ad_tbo_n2", ["C16", "C09", "C10", "C17", "C14"], QT, unwindset=BO_US, timeout=2400, mem=24, covers=["cover:item", "cover:pending"],
   what="try_buffered_ordered(2): " + W_AD + "; 1 parked output", bounds="n=2")
 
 # ---------------------------------------------------------------- join_all
